@@ -1280,6 +1280,17 @@ func (mgr *Manager) UpdateTag(name string, operation UpdateTagOperation) error {
 				newTag.converters = tag.converters
 				newTag.referencedBy = tag.referencedBy
 				newTag.Uncertain = mgr.allStreams
+				isMark := strings.HasPrefix(name, "mark/") || strings.HasPrefix(name, "generated/")
+				if isMark {
+					// a mark list is its id list, nothing evaluates it (a later mark update drops what is
+					// still uncertain): take the matches from the new list, as AddTag does, and only let
+					// the tags that refer to the list know which streams entered or left it
+					newTag.Matches, _ = newTag.Conditions.StreamIDs(mgr.nextStreamID)
+					newTag.Uncertain = tag.Matches.XorCopy(newTag.Matches)
+					for _, converter := range newTag.converters {
+						mgr.streamsToConvert[converter.Name()].Or(newTag.Matches)
+					}
+				}
 				onlyBefore := map[string]struct{}{}
 				onlyAfter := map[string]struct{}{}
 				for _, rtn := range tag.referencedTags() {
@@ -1309,6 +1320,9 @@ func (mgr *Manager) UpdateTag(name string, operation UpdateTagOperation) error {
 				tag = newTag
 				mgr.tags[name] = tag
 				mgr.inheritTagUncertainty()
+				if isMark {
+					tag.Uncertain = bitmask.LongBitmask{}
+				}
 				mgr.startTaggingJobIfNeeded()
 				mgr.startConverterJobIfNeeded()
 			}
